@@ -109,4 +109,51 @@ def allocateTokens (consumers : List (CId × List CVal × List String)) (globalD
   consumers.foldl (allocConsumer tax height eligBlocks globalDenoms)
     { credits := credits, pool := pool, distr := distr, cp := cp, steps := [] }
 
+
+/-! ### consumer side: EndBlockRD (x/ccv/consumer/keeper/distribution.go) -/
+
+structure CRState where
+  fc     : Bal := []      -- fee collector
+  redis  : Bal := []      -- cons_redistribute
+  toSend : Bal := []      -- cons_to_send_to_provider
+  escrow : Bal := []      -- what the ICS-20 module holds for transfers in flight
+  ltbh   : Nat := 0       -- LastTransmissionBlockHeight
+deriving Repr
+
+def addBal (b : Bal) (d : String) (v : Nat) : Bal := setBal b d (getBal b d + v)
+
+/-- the consumer's share of one denom of the collected fees: the fraction, rounded down
+    (DecCoins.MulDec of an integer amount is exact, then TruncateDecimal) -/
+def consumerShare (amt frac : Nat) : Nat := amt * frac / one
+
+def splitOne (frac : Nat) (s : CRState) (d : String) : CRState :=
+  let amt := getBal s.fc d
+  let c := consumerShare amt frac
+  { s with fc := setBal s.fc d 0, redis := addBal s.redis d c, toSend := addBal s.toSend d (amt - c) }
+
+/-- DistributeRewardsInternally: every denom the fee collector holds is split -/
+def distributeInternally (s : CRState) (frac : Nat) : CRState :=
+  (s.fc.map (·.1)).foldl (splitOne frac) s
+
+def sendOneDenom (acc : CRState × List (String × Nat)) (d : String) : CRState × List (String × Nat) :=
+  let b := getBal acc.1.toSend d
+  if b == 0 then acc
+  else ({ acc.1 with toSend := setBal acc.1.toSend d 0, escrow := addBal acc.1.escrow d b }, acc.2 ++ [(d, b)])
+
+/-- SendRewardsToProvider (in a cached context): the whole balance of every allowed denom, if the
+    transfer channel is open; a failing transfer (the `failNth`-th, 0 = none) rolls all of them back -/
+def sendRewards (s : CRState) (allowed : List String) (chOpen : Bool) (failNth : Nat) : CRState × List (String × Nat) :=
+  if !chOpen then (s, [])
+  else
+    let r := allowed.foldl sendOneDenom (s, [])
+    if failNth != 0 && decide (failNth ≤ r.2.length) then (s, []) else r
+
+def endBlockRD (s : CRState) (height frac bpdt : Nat) (allowed : List String) (chOpen : Bool) (failNth : Nat) :
+    CRState × List (String × Nat) :=
+  let s1 := distributeInternally s frac
+  if height ≥ s1.ltbh + bpdt then
+    let r := sendRewards s1 allowed chOpen failNth
+    ({ r.1 with ltbh := height }, r.2)
+  else (s1, [])
+
 end ICS.Rewards
